@@ -47,9 +47,8 @@ func genScenario(r *rand.Rand, key string, quick bool) *fullsync.Scenario {
 		opt.MaxElemBytes = 17000
 		opt.NumKeys = 1 + r.Intn(3)
 	}
-	if r.Intn(3) == 0 {
+	if sc.Chunk = fullsync.ChunkOf(key); sc.Chunk > 0 {
 		// value chunking: values on both sides of the threshold
-		sc.Chunk = 1024 * (1 + r.Intn(4))
 		opt.MinValueBytes = sc.Chunk/2 + r.Intn(sc.Chunk*2)
 		opt.NumKeys = 1 + r.Intn(3)
 		if r.Intn(2) == 0 {
@@ -84,7 +83,7 @@ func main() {
 	for i := range keys {
 		keys[i] = fmt.Sprintf("case-%d", i)
 	}
-	harness.RunSharded(run, keys, harness.ShardOptions{PerCaseTimeout: 100 * time.Second,
+	harness.RunSharded(run, keys, harness.ShardOptions{PerCaseTimeout: 100 * time.Second, Group: func(key string) string { return fmt.Sprint(fullsync.ChunkOf(key)) },
 		AbnormalSig: func(key, why, tail string) (string, string) {
 			return "replay-of-valid-snapshot-does-not-terminate-or-crashes", "replay of a valid snapshot " + why
 		}}, func(key string, res *harness.CaseResult) {
